@@ -21,7 +21,7 @@ def parseQArg (s : String) : Option (Option QArg) :=
   else if s.startsWith "v:" then (parseList Val.parseRat? (s.drop 2).toString).map fun qs => some (.vector qs)
   else none
 
-def parseMethod (s : String) : Option (Option (Option Method)) :=
+private def parseMethod (s : String) : Option (Option (Option Method)) :=
   match s with
   | "eager" => some none
   | "none" => some (some none)
